@@ -399,3 +399,30 @@ UNITS = [
                    Canary('magnitude-of-the-real-part', 'Mininec.currents_as_mininec', _AbsOfReal,
                           [P + '/Mininec.currents_as_mininec/field-carries-magnitude'])]),
 ]
+
+
+# ---------------------------------------------------------------- replay of verifier counter-models on the real format_float
+def replay_format_float(model, name):
+    """the counter-model's value f is formatted by the REAL format_float (both use_e settings) and read back natively"""
+    import json
+    from fractions import Fraction as _F
+    from pyvc.runner import native_python
+    f = None
+    for k, v in model.items():
+        if k.split('!')[0] == 'f':
+            t = str(v).replace('?', '').replace(' ', '')
+            try:
+                f = float(-_F(t[1:]) if t.startswith('-') else _F(t))
+            except Exception:
+                f = None
+    if f is None:
+        return {'reproduced': False, 'error': 'no value for f in the model'}
+    obs = []
+    for ue in (0, 1):
+        r = native_python('c19_format.py', ['replay', json.dumps({'value': f, 'use_e': ue})])
+        if r['violations']:
+            obs.append(r['violations'][0])
+    return {'reproduced': bool(obs), 'input': {'value': f}, 'observed': obs[:2]}
+
+
+REPLAY = {'C19/format_float/': replay_format_float}
